@@ -20,6 +20,7 @@ def run(tier, seed):
     chk = fw.Check("C15", tier, seed)
     br, ob = fw.standard_prelude(chk, with_coqchk=(tier == "thorough"))
     rng = chk.rng
+    impl.KEEP_ENABLED = False          # this check edits the objects it is handed (on purpose) and checks value semantics itself
     quick = tier == "quick"
     R = fw.Runner(oracle.Oracle()) if br.runner_ok else None
     import webauthn
